@@ -323,7 +323,8 @@ def run(ctx):
     # its own time budget; the property's own exploration keeps all of its
     t0, budget = ctx.t0, ctx.budget
     started = time.time()
-    ctx.t0, ctx.budget = started, (60 if ctx.tier == "quick" else 600)
+    ctx.t0, ctx.budget = started, min(
+        60 if ctx.tier == "quick" else 300, budget)
     try:
         cov = explore.explore(ctx, sc, max_depth=depth,
                               state_cap=None, label="story(depth<=%d)" % depth)
